@@ -12,10 +12,10 @@ import (
 func init() {
 	register(&Prop{
 		ID: "C09", Level: "exploration",
-		Rule: "one case = a router shaped by a seeded mutation history over a pool that mixes hostname patterns (static labels, {param} labels, mid-label params) and path-only patterns; for instantiated requests the Host header is varied over: exact, with port, with trailing dot, dot and port, one extra label on the left/right, one extra byte on the left/right, truncated by a byte or a label, another pool host, [::1]:80, 127.0.0.1, empty. Oracle: the reference matcher's host rules (strip port and one trailing dot; whole-host, label-for-label match; path-only routes exactly when no hostname route yields a match or trailing-slash action) through Lookup, Reverse, Iter.Reverse and ServeHTTP; metamorphic clause without model: for a method whose routes have no hostname every Host value gives the same answer. Whether a slash-adjusted hostname candidate is detected is C08's question. Non-trivial: at least 2 probes matched through a hostname route and at least 1 probe with a near-miss Host fell back or matched nothing; distinct = hash of (final set, probes).",
+		Rule: "one case = a router shaped by a seeded mutation history over a pool that mixes hostname patterns (static labels, {param} labels, mid-label params) and path-only patterns; for instantiated requests the Host header is varied over: exact, with port, with trailing dot, dot and port, one extra label on the left/right, one extra byte on the left/right, truncated by a byte or a label, another pool host, [::1]:80, 127.0.0.1, empty. Oracle: the reference matcher's host rules (strip port and one trailing dot; whole-host, label-for-label match; path-only routes exactly when no hostname route yields a match or trailing-slash action) through Lookup, Reverse, Iter.Reverse and ServeHTTP; metamorphic clause without model: for a method whose routes have no hostname every Host value gives the same answer. A slash-adjusted hostname candidate must be reported by Lookup and Reverse alike and keeps ServeHTTP from serving a path-only route (strict since the trailing-slash detection was repaired in /repo). Non-trivial: at least 2 probes matched through a hostname route and at least 1 probe with a near-miss Host fell back or matched nothing; distinct = hash of (final set, probes).",
 		Run:  runC09, Quick: 80000, Thorough: 9600000,
 		Real: commonReal, Stub: commonStub,
-		Tolerances: []string{"leading_slash_capture as in C01", "a slash-adjusted hostname candidate that fox does not report is accepted here when the answer equals the path-only fallback (judged by C08)"},
+		Tolerances: []string{"leading_slash_capture as in C01"},
 		Domain:     []string{"hosts are lower case LDH labels from {a,b,ab,c} with values from the probe alphabet; ports numeric"},
 	})
 }
@@ -63,7 +63,7 @@ func hostVariants(s sim.Source, host string, other string) (string, string) {
 
 func runC09(src sim.Source, o Opts) *Result {
 	res := newResult()
-	rr := &routingRun{src: src, res: res, f: routingFocus{prop: "C09", hostHeavy: true, methods: methods3}}
+	rr := &routingRun{src: src, res: res, f: routingFocus{prop: "C09", hostHeavy: true, methods: methods3, strictHost: true}}
 	if !rr.build() {
 		return res
 	}
